@@ -25,8 +25,23 @@ def main():
         mod = importlib.import_module("runner." + a.module)
         fn = getattr(mod, "task_" + a.task)
         res = fn(a.tier, a.seed, arg)
-    except Exception:
-        res = {"error": traceback.format_exc()[-3000:], "violations": [], "evaluations": 0}
+    except Exception as exc:
+        tb = traceback.extract_tb(sys.exc_info()[2])
+        inside = [f for f in tb if os.sep + "periodictable" + os.sep in f.filename and os.path.abspath(f.filename).startswith(os.path.abspath(repo))]
+        if inside and os.path.abspath(repo) != "/repo":
+            # the code under test (a tree other than /repo's reference: a changed tree) raised where the task expects a value for
+            # an input of the documented domain: reported as a finding of this task, not as a failure of the checker.  On /repo
+            # itself a crash stays a checker error (exit 3): every task is known to run through there.
+            last = inside[-1]
+            res = {"evaluations": 1, "distinct": 1, "exhaustive": False, "rule": "task stopped by an exception raised inside the library",
+                   "violations": [{"key": "crash:%s:%s:%s" % (a.task, type(exc).__name__, last.name),
+                                   "what": "the library raised %s (%s) in %s (%s:%d) for an input of the task's documented domain; the task could not "
+                                           "continue" % (type(exc).__name__, str(exc)[:160], last.name, os.path.basename(last.filename), last.lineno),
+                                   "input": {"task": a.task, "traceback_tail": traceback.format_exc()[-800:]}, "observed": type(exc).__name__,
+                                   "expected": "a value"}],
+                   "notes": ["task aborted: " + traceback.format_exc()[-400:]]}
+        else:
+            res = {"error": traceback.format_exc()[-3000:], "violations": [], "evaluations": 0}
     res.setdefault("task", a.task)
     res.setdefault("violations", [])
     print(json.dumps(res, default=str))
